@@ -180,6 +180,10 @@ def call_sequence_check(tier, seed, rng):
         ref = refs[i]
         fields = dict(x.split("=", 1) for x in ref.split(" ")[1:] if "=" in x)
         want = [x for x in fields.get("calls", "").split(",") if x]
+        if fields.get("tracecheck", "ok") != "ok":
+            mismatches.append({"kind": "instrumented reference semantics (X/SemTrace.lean) disagrees with X/Sem.lean",
+                               "source": G.to_source(cases[i][0]), "reference": ref})
+            continue
         tree = parse_tree([x for x in fields.get("ctree", "").split(",") if x])
         got, n = entries_of(f[8])
         checked += 1
